@@ -48,6 +48,9 @@ type TableSpec struct {
 	// NoInline lists callee-name patterns that must not be inlined (treated unknown
 	// unless they match an atom).
 	NoInline []string
+	// Probe, if set, is a value of Fn whose abstract value per cell is the outcome
+	// (key "probe"); evaluation of the cell stops once it is defined.
+	Probe ssa.Value
 }
 
 type evalOutcome struct {
@@ -56,6 +59,7 @@ type evalOutcome struct {
 	Calls   map[string]string
 	Undec   string // non-empty: why undecided
 	Panic   bool
+	Probed  bool
 }
 
 type evaluator struct {
@@ -345,6 +349,17 @@ func (ev *evaluator) run(f *frame, out *evalOutcome, depth int) []string {
 				ev.compute(f, in, pred, out, depth)
 				if out.Undec != "" || out.Panic {
 					return nil
+				}
+				if pv, isV := in.(ssa.Value); isV && ev.spec.Probe != nil && pv == ev.spec.Probe {
+					// the table only asks for the value of this definition: record it
+					// and end the evaluation of the cell here
+					v := ev.val(f, pv)
+					if v == absUnknown {
+						v = "sym:" + f.syms.Sym(pv)
+					}
+					out.Effects["probe"] = v
+					out.Probed = true
+					return []string{"probed"}
 				}
 			}
 		}
